@@ -99,6 +99,23 @@ theorem C06_short_circuit_or (fuel : Nat) (l r : Option Expr) (s s1 : ES) (v : V
 example : intsOperator [47] (-7) 2 = .int (-3) ∧ intsOperator [47] 7 (-2) = .int (-3) ∧
     intsOperator [47] minInt (-1) = .int minInt ∧ intsOperator [47] 1 0 = .divZero := by decide
 
+/-- COMPOSITIONALITY: a binary node evaluates its left operand, then its right operand (in the state the left
+    one left), and applies the operator's table entry to the two values — for every operator except the
+    short-circuiting `&&` / `||` (theorems `C06_short_circuit_*`). With Theorem C (the tree IS the documented
+    grouping) and the tables `C06_ops_*` this is the reference evaluator of the property. -/
+theorem C06_binary_compositional (fuel : Nat) (t : Token) (op : Bytes) (l r : Option Expr) (s s1 s2 : ES) (lv rv : Val)
+    (hl : evalExpr fuel l s = (.ok lv, s1)) (hr : evalExpr fuel r s1 = (.ok rv, s2))
+    (hop : op ≠ [38, 38] ∧ op ≠ [124, 124]) :
+    evalExpr (fuel + 2) (some (.inf t op l r)) s = applyInfix op lv rv s2 := by
+  simp [evalExpr, evalInfix, bind, attempt, getS, hl, hr, pure, hop.1, hop.2]
+
+/-- … and when `&&` (`||`) does not short-circuit, its value is the truth value of the right operand -/
+theorem C06_logical_right (fuel : Nat) (t : Token) (l r : Option Expr) (s s1 s2 : ES) (lv rv : Val)
+    (hl : evalExpr fuel l s = (.ok lv, s1)) (hr : evalExpr fuel r s1 = (.ok rv, s2)) :
+    (isTruthy lv = true → evalExpr (fuel + 2) (some (.inf t [38, 38] l r)) s = (.ok (.bool (isTruthy rv)), s2)) ∧
+    (isTruthy lv = false → evalExpr (fuel + 2) (some (.inf t [124, 124] l r)) s = (.ok (.bool (isTruthy rv)), s2)) := by
+  constructor <;> intro h <;> simp [evalExpr, evalInfix, bind, attempt, getS, hl, hr, pure, h, tolerantOps]
+
 /-! ### Theorem C — Pratt round trip on the parser model (proof in `PlushProofs/Lib/PrattRoundTrip.lean`) -/
 section Pratt
 open P
